@@ -372,7 +372,10 @@ def gen_settings(rng, tier, phonon, static, method=None, order=None, overshoot=F
     qs = {}
     t_min = rng.choice([0, 0, 50, 300])
     if low_tmin:
-        t_min = rng.choice([0.01, 0.5, 1, 5])      # arbitrarily low T > 0 as the first grid row
+        # arbitrarily low T > 0 as the first grid row; the tiny values sit below the absolute tolerances a
+        # "close to zero" test would use (numpy.isclose: 1e-8), so two sites that disagree on what counts as
+        # T = 0 show (seeded change c12-q-isclose-vs-exact-zero)
+        t_min = rng.choice([0.01, 0.5, 1, 5, 1e-3, 1e-6, 1e-9, 1e-12])
     if dt is None:
         dt = rng.choice(DT_CHOICES)
     nt = rng.randint(4, 12 if big else 9)
@@ -492,7 +495,10 @@ def gen_output(rng, full=False):
             entry = kw
             r = rng.random()
             if r < 0.12 and rule["kind"] == "value":
-                fname = rng.choice(["custom_%s_%s.txt", "my_%s_%s.dat", "out-%s-%s"]) % (rule["attr"][:6], base)
+                # names with literal braces are valid file names and must be honoured verbatim (a writer that passes the
+                # override through str.format would raise or rename: seeded change c15-fname-override-str-format)
+                fname = rng.choice(["custom_%s_%s.txt", "my_%s_%s.dat", "out-%s-%s", "custom_%s_%s.txt", "my_%s_%s.dat", "out-%s-%s",
+                                    "run{1}_%s_%s.txt", "{%s}_%s.dat", "x_{{%s}}_%s.txt", "{base}_%s_%s.txt"]) % (rule["attr"][:6], base)
                 if fname not in used_files:
                     entry = {"keyword": kw, "fname": fname}
                     used_files.add(fname)
@@ -614,8 +620,8 @@ def _yaml_scalar(x):
     if x is None:
         return "null"
     s = str(x)
-    if s in ("p", "P", "v", "V") or not s:
-        return s
+    if any(ch in s for ch in "{}[]#&*!|>'\"%@`,:"):
+        return json.dumps(s)        # double-quoted YAML scalar: braces etc. are plain characters of a file name, not YAML syntax
     return s
 
 
